@@ -912,7 +912,22 @@ bool QXmppTransferManager::handleStanza(const QDomElement &element)
         return false;
     }
 
+    const auto type = element.attribute(u"type"_s);
+    const bool isResponse = type == u"result" || type == u"error";
+
     // XEP-0047 In-Band Bytestreams
+    // open/data/close are requests. A response that echoes such a payload must not be answered;
+    // it is reported through iqReceived() and matched by id in _q_iqReceived().
+    if (isResponse &&
+        (QXmppIbbCloseIq::isIbbCloseIq(element) || QXmppIbbDataIq::isIbbDataIq(element) || QXmppIbbOpenIq::isIbbOpenIq(element))) {
+        return false;
+    }
+    // only 'set' requests and results are understood for bytestreams and stream initiation
+    if (type == u"get" &&
+        (QXmppByteStreamIq::isByteStreamIq(element) || QXmppStreamInitiationIq::isStreamInitiationIq(element))) {
+        return false;
+    }
+
     if (QXmppIbbCloseIq::isIbbCloseIq(element)) {
         QXmppIbbCloseIq ibbCloseIq;
         ibbCloseIq.parse(element);
